@@ -7,14 +7,15 @@ import (
 
 // EthBlockOpts controls the harness-assembled execution-block transaction.
 type EthBlockOpts struct {
-	Signer        *Key                                   // default: the proposer's validator key
-	Proposer      []byte                                 // consensus proposer address named in the message (default node validator)
-	MutatePayload func(p *goattypes.ExecutionPayload)    // after building, before hashing? no: applied to the final payload
-	Rehash        bool                                   // recompute the block hash after mutation (a consistent but different block)
+	Signer        *Key                                // default: the proposer's validator key
+	Proposer      []byte                              // consensus proposer address named in the message (default node validator)
+	MutatePayload func(p *goattypes.ExecutionPayload) // after building, before hashing? no: applied to the final payload
+	Rehash        bool                                // recompute the block hash after mutation (a consistent but different block)
 	TimeoutHeight *uint64
 	SeqOffset     uint64
 	Memo          string
 	Payload       *goattypes.ExecutionPayload // carry exactly this payload (e.g. a stale one) instead of building a fresh one
+	ForgeWith     *Key                        // the transaction names the signer's public key, but the signature bytes come from this key
 }
 
 // BuildEthBlockTx assembles MsgNewEthBlock for the next height the way an honest proposer
@@ -70,6 +71,10 @@ func (n *Node) BuildEthBlockTx(o EthBlockOpts) ([]byte, *goattypes.ExecutionPayl
 	th := uint64(n.Height + 1)
 	if o.TimeoutHeight != nil {
 		th = *o.TimeoutHeight
+	}
+	if o.ForgeWith != nil {
+		tx, err := SignTxAs(n.TxCfg, n.Cfg.ChainID, signer, *o.ForgeWith, num, seq+o.SeqOffset, th, o.Memo, msg)
+		return tx, payload, err
 	}
 	tx, err := SignTx(n.TxCfg, n.Cfg.ChainID, signer, num, seq+o.SeqOffset, th, o.Memo, msg)
 	return tx, payload, err
